@@ -150,10 +150,11 @@ pub fn is_sep(win: bool, b: u8) -> bool {
     b == b'/' || (win && b == b'\\')
 }
 
-/// valid names + complete prefix (DESIGN.md §2.3)
+/// valid names + a complete prefix, or an incomplete one that the grammar keeps unchanged when the path is
+/// extended (DESIGN.md §2.3, §11.4 round 10)
 pub fn well_formed(win: bool, b: &[u8]) -> bool {
     let cs = spec_comps(win, b);
-    spec::names_valid(&cs, win) && (!win || spec::win_complete_prefix(b))
+    spec::names_valid(&cs, win) && (!win || spec::win_complete_prefix(b) || spec::win_stable_prefix(b))
 }
 
 /// K3: no prefix, begins with two separator bytes (the UNC introducer hazard)
